@@ -182,6 +182,14 @@ def build_cases(rng, sizes, full: bool) -> typing.Tuple[Tree, typing.List[Case]]
         data = trees.html_doc(title) + trees.gen_content(rng, 5000 * j, "text")
         t.file("page%d.html" % j, data)
         cases.append(Case(b"page%d.html" % j, data, "text/html", data, ("content:html", "name:plain", "ext:.html")))
+    if full:
+        # documents produced by a template: what is sent is the expansion, not the file
+        for j, filler in enumerate(["", "x" * 300, "y" * 5000]):
+            path = b"tmpl/page%d.html.tal" % j
+            tpl = '<html><body><p tal:content="selector">%s placeholder text that the expansion replaces</p><i>%s</i></body></html>' % ("z" * 200, filler)
+            out = '<html><body><p>/%s</p><i>%s</i></body></html>' % (path.decode(), filler)
+            t.file(path, tpl)
+            cases.append(Case(path, tpl.encode(), "text/html", out.encode(), ("content:tal-template", "name:plain", "ext:.html.tal")))
     for j, size in enumerate([0, 1, 4096, 11000, 70000]):
         inner = trees.gen_content(rng, size, "crlf" if j % 2 else "binary")
         for enc, fn, comp in ((".gz", trees.gz, "gzip"), (".bz2", trees.bz, "bzip2")):
